@@ -46,6 +46,7 @@ mut("R13_te_first_line_only", "src/body.rs", """        let chunked = headers
             .into_iter()
             .filter_map(|v| v.to_str().ok())
             .flat_map(|v| v.split(','))""", ["C06"])
+mut("R14_host_follows_redirect", "src/client/flow.rs", "        if !keep_host_header {\n            request.unset_header(\"host\")?;\n        }\n", "", ["C14"])
 mut("R12_builder_expect", "src/parser.rs", "    let response = builder\n        .body(())\n        .map_err(|e| Error::HttpParseFail(e.to_string()))?;\n\n    Ok(Some((input_used, response)))", "    let response = builder.body(()).expect(\"a valid response\");\n\n    Ok(Some((input_used, response)))", ["C12"])
 
 # ---------------------------------------------------------------- per-property mutants ("must catch" lists of DESIGN section 7)
